@@ -368,6 +368,9 @@ type RmgrShim struct {
 	OnCapacity func(nodenames []string, opts resourcetypes.Resources, caps map[string]*plugintypes.NodeDeployCapacity, total int, err error)
 	// OnAlloc is called with every Alloc outcome.
 	OnAlloc func(node string, count int, err error)
+	// CtxHook, when set, sees the context calcium passes to GetNodesDeployCapacity / Realloc before the call is
+	// performed (both run inside calcium's locked sections); it may block (C19: park the operation under its locks).
+	CtxHook func(op string, ctx context.Context)
 }
 
 var _ resource.Manager = (*RmgrShim)(nil)
@@ -393,6 +396,9 @@ func (m *RmgrShim) RemoveNode(ctx context.Context, n string) error {
 func (m *RmgrShim) GetNodesDeployCapacity(ctx context.Context, ns []string, r resourcetypes.Resources) (c map[string]*plugintypes.NodeDeployCapacity, total int, err error) {
 	sorted := append([]string(nil), ns...)
 	sort.Strings(sorted)
+	if h := m.CtxHook; h != nil {
+		h("GetNodesDeployCapacity", ctx)
+	}
 	err = m.gate("GetNodesDeployCapacity", strings.Join(sorted, ","), func() error { c, total, err = m.Real.GetNodesDeployCapacity(ctx, ns, r); return err })
 	if m.OnCapacity != nil {
 		m.OnCapacity(ns, r, c, total, err)
@@ -431,6 +437,9 @@ func (m *RmgrShim) RollbackAlloc(ctx context.Context, n string, w []resourcetype
 	return m.gate("RollbackAlloc", fmt.Sprintf("%s,%d", n, len(w)), func() error { return m.Real.RollbackAlloc(ctx, n, w) })
 }
 func (m *RmgrShim) Realloc(ctx context.Context, n string, a, b resourcetypes.Resources) (x, y, z resourcetypes.Resources, err error) {
+	if h := m.CtxHook; h != nil {
+		h("Realloc", ctx)
+	}
 	err = m.gate("Realloc", n, func() error { x, y, z, err = m.Real.Realloc(ctx, n, a, b); return err })
 	return
 }
